@@ -16,7 +16,7 @@
 (* (parent form, child position, child form); Budget 3 = every triple in   *)
 (* both shapes (chain, fork).  Deeper trees: -simulate with a large Budget.*)
 (***************************************************************************)
-EXTENDS Grammar, Json, IOUtils
+EXTENDS Grammar, Json, IOUtils, SequencesExt
 
 \* parameters of a run, taken from the environment (one .cfg serves every run)
 Mode     == IOEnv.C14_MODE
@@ -24,7 +24,11 @@ Budget   == atoi(IOEnv.C14_BUDGET)
 MaxDepth == atoi(IOEnv.C14_DEPTH)
 Alpha    == IOEnv.C14_ALPHA
 Leaves   == IOEnv.C14_LEAVES
-VARIABLES t, b
+\* 0: exhaustive enumeration.  N > 0: N pseudo-random derivations (for deep trees): derivation
+\* k replaces the leftmost hole by the form number Rand(k, step) of the admissible ones
+Traces   == atoi(IOEnv.C14_TRACES)
+Seed     == atoi(IOEnv.C14_SEED)
+VARIABLES t, b, tid, stp
 
 H(ty, d) == [k |-> "hole", a |-> ty, c |-> <<>>, d |-> d]
 Id0 == N("id", "?", <<>>)           \* renamed v1, v2, ... in source order by Lab
@@ -174,11 +178,19 @@ RECURSIVE Need(_)
 Need(x) == IF x.k = "hole" THEN (IF x.a \in {"s", "b"} THEN 1 ELSE 0)
            ELSE LET r[i \in 0..Len(x.c)] == IF i = 0 THEN 0 ELSE r[i - 1] + Need(x.c[i]) IN r[Len(x.c)]
 
-RECURSIVE FillLeft(_, _)
-FillLeft(x, n) ==
-  IF x.k = "hole" THEN Forms(x, n)
-  ELSE LET i == CHOOSE j \in 1..Len(x.c) : HasHole(x.c[j]) /\ \A m \in 1..(j - 1) : ~HasHole(x.c[m])
-       IN { <<[x EXCEPT !.c[i] = p[1]], p[2]>> : p \in FillLeft(x.c[i], n) }
+\* the leftmost hole of a partial tree, and the tree with that hole replaced by u
+RECURSIVE LeftHole(_), ReplaceLeft(_, _)
+FirstHoley(x) == CHOOSE j \in 1..Len(x.c) : HasHole(x.c[j]) /\ \A m \in 1..(j - 1) : ~HasHole(x.c[m])
+LeftHole(x) == IF x.k = "hole" THEN x ELSE LeftHole(x.c[FirstHoley(x)])
+ReplaceLeft(x, u) == IF x.k = "hole" THEN u
+                     ELSE LET i == FirstHoley(x) IN [x EXCEPT !.c[i] = ReplaceLeft(x.c[i], u)]
+
+\* the forms that may replace the leftmost hole of x with m budget left: the budget must
+\* still cover the statement holes that remain
+Admissible(x, m) ==
+  LET h == LeftHole(x)
+      rest == Need(x) - Need(h)
+  IN {p \in Forms(h, m) : Need(p[1]) + rest <= m - p[2]}
 
 \* rename the identifiers "?" to v1, v2, ... in source order: <<tree, next number>>
 RECURSIVE Lab(_, _)
@@ -191,12 +203,20 @@ Lab(x, n) ==
 
 Root == IF Mode = "expr" THEN H("e", MaxDepth) ELSE H("f", MaxDepth)
 
-Init == t = Root /\ b = Budget
+\* a small linear congruential mix (all intermediate values below 2^31)
+Rand(kk, nn) == LET x == ((kk % 30011) * 1103 + nn * 12347 + (Seed % 30011) * 7 + 11) % 32749
+                    y == (x * 3001 + 4099) % 32749
+                IN (y * 211 + 17) % 32749
+
+Init == /\ t = Root /\ b = Budget /\ stp = 0
+        /\ tid \in (IF Traces = 0 THEN {0} ELSE 1..Traces)
+Step(p) == /\ t' = ReplaceLeft(t, p[1])
+           /\ b' = IF HasHole(t') THEN b - p[2] ELSE 0
+           /\ stp' = IF Traces = 0 THEN 0 ELSE stp + 1
+           /\ tid' = tid
 Next == /\ HasHole(t)
-        /\ \E p \in FillLeft(t, b) :
-             /\ Need(p[1]) <= b - p[2]
-             /\ t' = p[1]
-             /\ b' = IF HasHole(p[1]) THEN b - p[2] ELSE 0
+        /\ IF Traces = 0 THEN \E p \in Admissible(t, b) : Step(p)
+           ELSE LET S == SetToSeq(Admissible(t, b)) IN Step(S[1 + (Rand(tid, stp) % Len(S))])
 
 Record(x) == [tree |-> x, toks |-> IF Mode = "expr" THEN RenderExpr(x) ELSE RenderFile(x)]
 Emit == HasHole(t) \/ PrintT(<<"TREE", ToJson(Record(Lab(t, 1)[1]))>>)
